@@ -214,16 +214,24 @@ func annotate(p *ProvDesc, x any) any {
 		x = nject.Parallel(x)
 	}
 	for _, t := range p.Loose {
-		x = looseFn[t](x)
+		if f, ok := looseFn[t]; ok {
+			x = f(x)
+		}
 	}
 	for _, t := range p.MustConsume {
-		x = mustConsumeFn[t](x)
+		if f, ok := mustConsumeFn[t]; ok {
+			x = f(x)
+		}
 	}
 	for _, t := range p.ConsOpt {
-		x = consOptFn[t](x)
+		if f, ok := consOptFn[t]; ok {
+			x = f(x)
+		}
 	}
 	for _, t := range p.ShadowOK {
-		x = shadowOKFn[t](x)
+		if f, ok := shadowOKFn[t]; ok {
+			x = f(x)
+		}
 	}
 	if p.Replace != "" {
 		x = nject.ReplaceNamed(p.Replace, x)
